@@ -121,7 +121,10 @@ def sites_for(draw, arities, kwpool, host, allow_next=True, max_sites=2, own=Non
             fn = "call_next"
         if fn == "next" and any(o["fn"] == "recurse" for o in out):
             fn = "call_next"
-        out.append({"fn": fn, "npos": npos, "kws": sorted(kws) if fn != "next" else []})
+        site = {"fn": fn, "npos": npos, "kws": sorted(kws) if fn != "next" else []}
+        if fn != "next" and draw(st.integers(0, 5)) == 0:
+            site["star"] = True  # recurse(*args, **kwargs): the run-time lookup path of the rewriter
+        out.append(site)
     # a body uses at most one *kind* of re-entry name besides call_next (the library rewrites only
     # the first detected recurse-like name; mixing `recurse` and the function's own name is a
     # separately recorded finding, kept out of unrelated checks)
